@@ -337,6 +337,46 @@ static void oom_probe(const char* name)
         }
         ++n_cases;
     }
+    // A handler may throw its own exception derived from std::bad_alloc (documented for out_of_memory::handler): every
+    // later failure must still be reported to the registered handler first
+    struct HandlerOom : std::bad_alloc
+    {
+    };
+    static bool throw_now;
+    auto        old = out_of_memory::set_handler([](const allocator_info&, std::size_t) {
+        ++oom_calls;
+        if (throw_now)
+            throw HandlerOom();
+    });
+    for (int round = 0; round < 6; ++round)
+    {
+        throw_now = round % 2 == 0;
+        oom_calls = bad_calls = 0;
+        const char* kind = "ok";
+        try
+        {
+            (void)traits::allocate_node(a, std::size_t(1) << 55, 8);
+        }
+        catch (const HandlerOom&)
+        {
+            kind = "handler-exception";
+        }
+        catch (const out_of_memory&)
+        {
+            kind = "oom";
+        }
+        catch (...)
+        {
+            kind = "other";
+        }
+        std::printf("oom-case %s round %d (handler %s) -> %s oom_handler=%d\n", name, round, throw_now ? "throws" : "returns", kind, oom_calls);
+        if (oom_calls != 1 || std::string(kind) != (throw_now ? "handler-exception" : "oom"))
+            failures.push_back(fmt("C03 %s allocate_node(2^55), failure no. %d after handlers that threw: the registered out_of_memory handler was called "
+                                   "%d time(s), outcome %s (expected once, %s)",
+                                   name, round + 1, oom_calls, kind, throw_now ? "the handler's own exception" : "out_of_memory"));
+        ++n_cases;
+    }
+    out_of_memory::set_handler(old);
 }
 
 int main(int argc, char** argv)
